@@ -55,9 +55,13 @@ var alphabet = []pt{
 	// host b again, but another series (dc=2) that reports only f2: the group host=b then exists on two shards with
 	// different field sets (one node creates the group without f2, another one brings f2 for it later)
 	{"b", "f2", 0, 256, "2"},
+	// a min field whose value in one series is exactly 0 (a slot that holds 0 is not an empty slot) and larger in
+	// another series of the same group (no group by)
+	{"a", "f3", 0, 0, ""},
+	{"c", "f3", 0, 7, ""},
 }
 
-var fieldType = map[string]string{"f1": "sum", "f2": "max"}
+var fieldType = map[string]string{"f1": "sum", "f2": "max", "f3": "min"}
 
 // query menu; $m = the case's metric name.
 type queryT struct {
@@ -77,6 +81,7 @@ var menu = []queryT{
 	{"expr_by_host", "select f1+f2 as s from $m group by host"},
 	{"avg", "select avg(f1) from $m"},
 	{"max_f2", "select max(f2) from $m"},
+	{"f3", "select f3 from $m"},
 	{"where_a", "select f1 from $m where host='a'"},
 	{"where_b_by_host", "select f1 from $m where host='b' group by host"},
 	{"where_in", "select f1 from $m where host in ('a','c') group by host"},
